@@ -1,7 +1,12 @@
 (* C20 property theorems: statements closed by `exact`, each followed by Print Assumptions.
-   gen_* are regenerated from /repo on this run (validators, _set_fh of both horizon mixins). *)
-From Coq Require Import ZArith List Bool.
+   gen_* are regenerated from /repo on this run: Gen.v (settings validators, _set_fh of both horizon
+   mixins), GenV.v (data / cv / composite / name validators, NaiveForecaster's rules), GenC.v (the
+   validation chains of the entry points), SkV.C02.Gen (check_fh / the horizon constructor). *)
+From Coq Require Import String ZArith List Bool.
 Require Import SkV.Lib.Base SkV.C01.Model SkV.C20.Model SkV.C20.Gen SkV.C20.Bridge SkV.C20.Proofs.
+Require Import SkV.C20.ModelV SkV.C20.GenV SkV.C20.BridgeV SkV.C20.ProofsV.
+Require Import SkV.C20.Chain SkV.C20.GenC SkV.C20.BridgeC SkV.C20.ProofsC SkV.C20.ProofsE.
+Require Import SkV.C20.BridgeFh SkV.C20.PropsLemmas.
 Import ListNotations.
 Open Scope Z_scope.
 
@@ -143,6 +148,256 @@ Theorem C20_pipeline_ok_iff : forall names params kinds,
    exists front, kinds = front ++ [KForecaster] /\ Forall (fun k => k = KTransformer) front).
 Proof. exact pipeline_ok_iff. Qed.
 Print Assumptions C20_pipeline_ok_iff.
+
+(* ================================================================================================ *)
+(* second generation: the validators of utils/validation, the composite / name checks and the
+   entry points themselves, all as regenerated from the source on this run *)
+
+(* time index: accepted iff a supported index class (the enforced one, if any), sorted, non-empty
+   unless allowed - for EVERY index description *)
+Theorem C20_check_time_index_accepts_iff : forall i e eit,
+  gen_check_time_index i e eit = Ok (ix_norm i) <->
+  (ixkind_valid (ik (ix_norm i)) = true /\ (eit = None \/ eit = Some (ik (ix_norm i))) /\
+   isorted i = true /\ (e = true \/ 1 <= ilen i)).
+Proof. exact code_time_index_accepts_iff. Qed.
+Print Assumptions C20_check_time_index_accepts_iff.
+
+Theorem C20_check_time_index_rejects : forall i e eit,
+  (isorted i = false \/ (e = false /\ ilen i < 1) \/ ik i = KOtherIndex \/
+   (exists k, eit = Some k /\ ik (ix_norm i) <> k)) -> gen_check_time_index i e eit = Err.
+Proof. exact code_time_index_rejects. Qed.
+Print Assumptions C20_check_time_index_rejects.
+
+(* container: lists never; arrays only where allowed; multivariate never where univariate is
+   enforced; pandas containers by their index *)
+Theorem C20_check_series_accepts_iff : forall s u e np eit,
+  gen_check_series s u e np eit = Ok s <->
+  match cont (sd s) with
+  | CList => False
+  | CArray1 => np = true
+  | CArray2 => np = true /\ u = false
+  | CFrame => u = false /\ time_index_ok e eit (s_index s) = true
+  | CSeries => time_index_ok e eit (s_index s) = true
+  end.
+Proof. exact code_series_accepts_iff. Qed.
+Print Assumptions C20_check_series_accepts_iff.
+
+Theorem C20_check_series_rejects_or_identity : forall s u e np eit,
+  gen_check_series s u e np eit = Err \/ gen_check_series s u e np eit = Ok s.
+Proof. exact code_series_rejects_or_identity. Qed.
+Print Assumptions C20_check_series_rejects_or_identity.
+
+(* target and exogenous data: y a univariate pandas series with a valid index, X (if given) a pandas
+   container with a valid non-empty index that EQUALS y's (then y's must be non-empty too) *)
+Theorem C20_check_y_X_accepts_iff : forall y X e c eit,
+  gen_check_y_X y X e c eit = Ok (y, X) <->
+  ((cont (sd y) = CSeries /\ time_index_ok e eit (s_index y) = true /\ (c = true \/ sconst y = false)) /\
+   match X with
+   | None => True
+   | Some x => X_ok false false None x = true /\ time_index_ok false None (s_index y) = true /\
+               time_index_ok false None (s_index x) = true /\ slab y = slab x
+   end).
+Proof. exact code_y_X_accepts_iff. Qed.
+Print Assumptions C20_check_y_X_accepts_iff.
+
+Theorem C20_check_y_X_rejects_different_index : forall y x e c eit,
+  slab y <> slab x -> gen_check_y_X y (Some x) e c eit = Err.
+Proof. exact code_y_X_rejects_different_index. Qed.
+Print Assumptions C20_check_y_X_rejects_different_index.
+
+(* with supported index classes the regenerated check_y_X decides what the first model decided *)
+Theorem C20_check_y_X_is_first_model : forall e y X, ixkind_valid (sidx y) = true ->
+  (forall x, X = Some x -> ixkind_valid (sidx x) = true) ->
+  is_ok (gen_check_y_X y X e true None) =
+  check_y_X_ok e (sd y) (option_map (fun x => (sd x, slab y =? slab x)) X) &&
+  match X with Some _ => 1 <=? slen (sd y) | None => true end.
+Proof. exact code_y_X_first_model. Qed.
+Print Assumptions C20_check_y_X_is_first_model.
+
+Theorem C20_check_cv_accepts_iff : forall cv enf,
+  gen_check_cv cv enf = Ok cv <->
+  exists h s, cv = CvSplitter h s /\ (enf = true -> h = true -> s = true).
+Proof. exact code_cv_accepts_iff. Qed.
+Print Assumptions C20_check_cv_accepts_iff.
+
+Theorem C20_check_sp_accepts_iff : forall v,
+  gen_check_sp v = Ok v <-> (v = PNone \/ exists z, v = PInt z /\ 1 <= z).
+Proof. exact code_sp_accepts_iff. Qed.
+Print Assumptions C20_check_sp_accepts_iff.
+
+(* names of strategies / scitypes / aggregation functions: exactly the documented ones *)
+Theorem C20_strategy_names_accept_iff : forall s,
+  (gen_check_eval_strategy s = Ok tt <-> In s ["refit"; "update"]%string) /\
+  (gen_check_reduce_strategy s = Ok s <-> In s ["direct"; "recursive"; "multioutput"; "dirrec"]%string) /\
+  (gen_check_scitype s = Ok s <-> In s ["infer"; "tabular-regressor"; "time-series-regressor"]%string) /\
+  (gen_check_aggfunc s = Ok tt <-> In s ["median"; "mean"; "min"; "max"]%string).
+Proof. exact code_strategy_names_accept_iff. Qed.
+Print Assumptions C20_strategy_names_accept_iff.
+
+(* composites: the regenerated _check_names / _check_forecasters / _check_steps decide what the
+   structural model (names_ok / members_ok / pipeline_ok, theorems above) decides *)
+Theorem C20_check_names_is_names_ok : forall names params,
+  gen_check_names names params = if names_ok names params then Ok tt else Err.
+Proof. exact bridge_check_names. Qed.
+Print Assumptions C20_check_names_is_names_ok.
+
+Theorem C20_check_forecasters_is_members_ok : forall l params,
+  forallb (fun m => negb (mk_is_drop (snd m))) l = true ->
+  is_ok (gen_check_forecasters (FcsList l) params) =
+  members_ok (map fst l) params (forallb (fun m => mk_is_forecaster (snd m)) l).
+Proof. exact code_forecasters_first_model. Qed.
+Print Assumptions C20_check_forecasters_is_members_ok.
+
+Theorem C20_check_forecasters_rejects_non_lists : forall params,
+  gen_check_forecasters FcsNone params = Err /\ gen_check_forecasters FcsNotList params = Err /\
+  gen_check_forecasters (FcsList []) params = Err /\
+  (forall l, forallb (fun m => mk_is_drop (snd m)) l = true ->
+             gen_check_forecasters (FcsList l) params = Err).
+Proof. exact code_forecasters_rejects. Qed.
+Print Assumptions C20_check_forecasters_rejects_non_lists.
+
+Theorem C20_check_steps_is_pipeline_ok : forall steps params,
+  is_ok (gen_check_steps steps params) =
+  pipeline_ok (map fst steps) params (map (fun m => mk_to_step (snd m)) steps).
+Proof. exact code_steps_first_model. Qed.
+Print Assumptions C20_check_steps_is_pipeline_ok.
+
+(* NaiveForecaster's strategy / sp / window rules, for EVERY value of sp and window_length *)
+Theorem C20_naive_rules_decision : forall st sp wl n,
+  gen_naive_rules st sp wl n =
+  if naive_rules_ok st sp wl n then Ok (naive_rules_window st sp wl n) else Err.
+Proof. exact bridge_naive_rules. Qed.
+Print Assumptions C20_naive_rules_decision.
+
+Theorem C20_naive_rules_reject_malformed : forall sp wl n,
+  gen_naive_rules SUnknown sp wl n = Err /\
+  (forall st, st = SMean \/ st = SDrift -> posint_or_none_ok wl = false ->
+              gen_naive_rules st sp wl n = Err) /\
+  (forall st w, st = SMean \/ st = SDrift -> wl = PInt w -> n < w ->
+                gen_naive_rules st sp wl n = Err) /\
+  (posint_ok sp = false -> gen_naive_rules SMean sp wl n = Err) /\
+  (forall z w, sp = PInt z -> wl = PInt w -> z <> 1 -> w < z -> gen_naive_rules SMean sp wl n = Err) /\
+  (forall z, sp = PInt z -> z <> 1 -> wl = PNone -> n < z -> gen_naive_rules SMean sp wl n = Err) /\
+  (wl = PInt 1 -> gen_naive_rules SDrift sp wl n = Err) /\
+  (wl = PNone -> n = 1 -> gen_naive_rules SDrift sp wl n = Err) /\
+  (forall z, sp = PInt z -> z < 1 \/ n < z -> gen_naive_rules SLast sp wl n = Err) /\
+  (sp = PStr \/ sp = PNone -> gen_naive_rules SLast sp wl n = Err).
+Proof. exact code_naive_rules_reject. Qed.
+Print Assumptions C20_naive_rules_reject_malformed.
+
+Theorem C20_naive_rules_is_first_model : forall st sp wl y X f, sp_plain st sp = true ->
+  is_ok (gen_naive_rules st sp wl (slen y)) =
+  match naive_window {| f_strategy := st; f_sp := sp; f_wl := wl; f_y := y; f_X := X; f_fh := f |} with
+  | Ok w => w <=? slen y
+  | Err => false
+  end.
+Proof. exact code_naive_rules_first_model. Qed.
+Print Assumptions C20_naive_rules_is_first_model.
+
+(* check_fh as regenerated (by C02) is the horizon check of this model *)
+Theorem C20_fh_checked_is_code : forall f, fh_plain f = true ->
+  fh_checked f = rmap SkV.C02.Model.vals (SkV.C02.Gen.gen_check_fh (SkV.C02.Model.InRaw (to_input f)) false).
+Proof. exact fh_checked_is_code. Qed.
+Print Assumptions C20_fh_checked_is_code.
+
+(* ---- the entry points: chains regenerated from the source ------------------------------------------ *)
+
+(* a call of ANY modelled entry point is rejected exactly when one of the validator events on its
+   executed path rejects (in the state the earlier events left) *)
+Theorem C20_entry_rejects_iff_some_validator_rejects : forall e i s,
+  accepted (run (gen_chain_of e) i s) = false <->
+  exists pre ev_ post s' v,
+    gen_chain_of e = pre ++ ev_ :: post /\ run pre i s = (s', true) /\
+    path_holds (gpath ev_) i s' = true /\ gact ev_ = AChk v /\ chk v i s' = None.
+Proof. exact code_entry_rejects_iff. Qed.
+Print Assumptions C20_entry_rejects_iff_some_validator_rejects.
+
+(* ... where a validator event means the regenerated validator on the arguments it stands for *)
+Theorem C20_validator_event_is_code : forall v i s,
+  v <> VSetFh -> chk v i s = if gen_chk v i s then Some s else None.
+Proof. exact code_validator_event. Qed.
+Print Assumptions C20_validator_event_is_code.
+
+(* a rejected fit leaves the forecaster as fitted / unfitted as it was: for every fitting entry point *)
+Theorem C20_rejection_leaves_unfitted : forall e i s, In e fit_entries ->
+  accepted (run (gen_chain_of e) i s) = false ->
+  e_fitted (fst (run (gen_chain_of e) i s)) = e_fitted s.
+Proof. exact code_rejection_leaves_unfitted. Qed.
+Print Assumptions C20_rejection_leaves_unfitted.
+
+(* a rejected update / update_predict / evaluate / split / ... leaves the whole state as it was *)
+Theorem C20_rejected_call_leaves_state : forall e i s, In e atomic_entries ->
+  accepted (run (gen_chain_of e) i s) = false -> fst (run (gen_chain_of e) i s) = s.
+Proof. exact code_rejected_call_leaves_state. Qed.
+Print Assumptions C20_rejected_call_leaves_state.
+
+(* every data-taking entry point rejects a malformed target / exogenous data *)
+Theorem C20_data_entries_reject_malformed_data : forall e i s, In e data_entries ->
+  y_X_ok true true None (a_y i) (a_X i) = false -> accepted (run (gen_chain_of e) i s) = false.
+Proof. exact code_data_entries_reject. Qed.
+Print Assumptions C20_data_entries_reject_malformed_data.
+
+(* every horizon-taking entry point rejects an invalid horizon *)
+Theorem C20_horizon_entries_reject_bad_horizon : forall e i s f, In e horizon_entries ->
+  a_fh i = Some f -> fh_checked f = Err -> accepted (run (gen_chain_of e) i s) = false.
+Proof. exact code_horizon_entries_reject. Qed.
+Print Assumptions C20_horizon_entries_reject_bad_horizon.
+
+(* NaiveForecaster.fit as a whole: accepted iff data, horizon and settings are valid; then fitted *)
+Theorem C20_naive_fit_decision : forall i s,
+  accepted (run (gen_chain_of E_naive_fit) i s) =
+  y_X_ok false true None (a_y i) (a_X i) &&
+  is_ok (set_fh (c_required_fh i) (e_fitted s) (e_fh s) (a_fh i)) &&
+  naive_rules_ok (c_strategy i) (c_sp i) (c_wl i) (s_len (a_y i)).
+Proof. exact code_naive_fit_decision. Qed.
+Print Assumptions C20_naive_fit_decision.
+
+Theorem C20_naive_fit_is_first_model : forall i s,
+  e_fitted s = false -> c_required_fh i = false ->
+  ixkind_valid (sidx (a_y i)) = true -> (forall x, a_X i = Some x -> ixkind_valid (sidx x) = true) ->
+  sp_plain (c_strategy i) (c_sp i) = true -> a_fh i <> Some FhMissing ->
+  accepted (run (gen_chain_of E_naive_fit) i s) =
+  naive_fit_ok {| f_strategy := c_strategy i; f_sp := c_sp i; f_wl := c_wl i; f_y := sd (a_y i);
+                  f_X := option_map (fun x => (sd x, slab (a_y i) =? slab x)) (a_X i);
+                  f_fh := match a_fh i with Some f => f | None => FhMissing end |}.
+Proof. exact code_naive_fit_first_model. Qed.
+Print Assumptions C20_naive_fit_is_first_model.
+
+Theorem C20_composite_fit_decisions : forall i s,
+  accepted (run (gen_chain_of E_ens_fit) i s) =
+    (y_X_ok false true None (a_y i) (a_X i) &&
+     is_ok (set_fh (c_required_fh i) (e_fitted s) (e_fh s) (a_fh i)) &&
+     forecasters_ok (c_forecasters i) (c_params i)) /\
+  accepted (run (gen_chain_of E_ttf_fit) i s) =
+    (steps_ok (c_steps i) (c_params i) && y_X_ok false true None (a_y i) (a_X i) &&
+     is_ok (set_fh (c_required_fh i) (e_fitted s) (e_fh s) (a_fh i))) /\
+  accepted (run (gen_chain_of E_reducer_fit) i s) =
+    (y_X_ok false true None (a_y i) (a_X i) &&
+     is_ok (set_fh (c_required_fh i) (e_fitted s) (e_fh s) (a_fh i)) &&
+     posint_or_none_ok (c_step i) && posint_or_none_ok (c_wl i)).
+Proof. exact code_composite_fit_decisions. Qed.
+Print Assumptions C20_composite_fit_decisions.
+
+Theorem C20_update_predict_decisions : forall i s,
+  accepted (run (gen_chain_of E_update) i s) = (e_fitted s && y_X_ok true true None (a_y i) (a_X i)) /\
+  accepted (run (gen_chain_of E_predict) i s) =
+    (e_fitted s && match set_fh (c_required_fh i) (e_fitted s) (e_fh s) (a_fh i) with
+                   | Ok (Some _) => true
+                   | _ => false
+                   end).
+Proof. exact code_update_predict_decisions. Qed.
+Print Assumptions C20_update_predict_decisions.
+
+(* the window splitters' split(): the first model's sliding_entry, wherever no None setting reaches
+   the arithmetic *)
+Theorem C20_window_split_is_sliding_entry : forall i s,
+  ixkind_valid (sidx (a_y i)) = true -> cont (sd (a_y i)) = CSeries -> ssorted (sd (a_y i)) = true ->
+  1 <= s_len (a_y i) -> c_step i <> PNone -> c_wl i <> PNone ->
+  accepted (run_all [gen_chain_of E_split; gen_chain_of E_window_split] i s) =
+  is_ok (sliding_entry {| s_n := s_len (a_y i); s_fh := c_fh i; s_wl := c_wl i; s_step := c_step i;
+                          s_iw := c_iw i; s_sww := c_sww i |}).
+Proof. exact code_window_split_first_model. Qed.
+Print Assumptions C20_window_split_is_sliding_entry.
 
 Example C20_nonvacuous :
   naive_fit {| fitted := false; st_fh := None |} ex_in
